@@ -33,7 +33,7 @@ def handle : Handler
   | "resp", [method, range, ifRange, ifRangeDate, ims, inm, im, etag, lm, clen, accept, chunks, seek, pass] =>
     match unhexStr method, optStr range, optStr ifRange, optInt ifRangeDate, optInt ims, optStr inm,
         optStr im, optStr etag, optInt lm, optInt clen, boolArg accept, listArg unhex chunks,
-        optArg natArg seek, boolArg pass with
+        optArg natArg seek, natArg pass with
     | some method, some range, some ifRange, some ifRangeDate, some ims, some inm, some im, some etag,
         some lm, some clen, some accept, some chunks, some seek, some pass =>
       some (match respond method (mkReq range ifRange ifRangeDate ims inm im)
